@@ -123,8 +123,10 @@ def random_schema(rng, hostile_names=True, max_classes=5, shapes=None, max_attrs
             ty = rng.choice(CORE)
             key = add_attr(rng, t, ty, hostile_names)
             ref = add_attr(rng, s, ty, hostile_names)
-            rops.append(Rop(rel, s[0], [ref], rng.choice(('1', '1C', 'M', 'MC')), '',
-                            t[0], [key], rng.choice(('1', '1C')), ''))
+            # a phrase is optional at each end on its own
+            sp, tp = rng.choice((('', ''), ('', ''), ('owns', ''), ('', 'is owned by'), ('has', 'belongs to')))
+            rops.append(Rop(rel, s[0], [ref], rng.choice(('1', '1C', 'M', 'MC')), sp,
+                            t[0], [key], rng.choice(('1', '1C')), tp))
         elif shape == 'multikey':
             s, t = rng.choice(classes), rng.choice(classes)
             if s is t:
@@ -140,7 +142,7 @@ def random_schema(rng, hostile_names=True, max_classes=5, shapes=None, max_attrs
             key = add_attr(rng, c, ty, hostile_names)
             ref = add_attr(rng, c, ty, hostile_names)
             p1, p2 = rng.choice((('precedes', 'succeeds'), ('is parent of', 'is child of'),
-                                 ('one', 'other'), ('a-b', 'b a')))
+                                 ('one', 'other'), ('a-b', 'b a'), ('next', ''), ('', 'previous')))
             rops.append(Rop(rel, c[0], [ref], rng.choice(('1C', 'MC')), p1, c[0], [key], '1C', p2))
         elif shape == 'assoc':
             if len(classes) < 2:
